@@ -682,6 +682,14 @@ void neighbour_case(i64 x, i64 y)
 }
 void neighbour_one(Ints const &c)
 {
+  // types 3 and 4: 64-bit coordinates far outside the range of int (2^33 + x, 2^40 + y)
+  if (geti(c, 0) == 3 || geti(c, 0) == 4)
+  {
+    i64 const x = clampi(geti(c, 1), -4, 4), y = clampi(geti(c, 2), -4, 4);
+    if (geti(c, 0) == 3) neighbour_case<std::int64_t>((i64{1} << 33) + x, -(i64{1} << 40) + y);
+    else neighbour_case<std::uint64_t>((i64{1} << 40) + x, (i64{1} << 33) + y);
+    return;
+  }
   i64 const t = clampi(geti(c, 0), 0, 2);
   // unsigned positions: at 0 only the in-range part of the result is demanded (see neighbour_case)
   i64 const lo = t == 2 ? 0 : -4, hi = t == 2 ? 9 : 4;
@@ -693,6 +701,13 @@ void neighbour_one(Ints const &c)
 Reg const r_neigh{
     "moore_neumann_neighbors", Kind::exhaustive, "a position in [-4,4]^2 (int, ptrdiff_t) or [0,9]^2 (size_t): a coordinate equal to 0 or 1",
     [] {
+      for (i64 t = 3; t < 5; ++t)
+        for (i64 x = -2; x <= 2; ++x)
+          for (i64 y = -2; y <= 2; ++y)
+          {
+            cur3(t, x, y);
+            neighbour_one({t, x, y});
+          }
       for (i64 t = 0; t < 3; ++t)
         for (i64 x = (t == 2 ? 0 : -4); x <= (t == 2 ? 9 : 4); ++x)
           for (i64 y = (t == 2 ? 0 : -4); y <= (t == 2 ? 9 : 4); ++y)
@@ -702,7 +717,7 @@ Reg const r_neigh{
           }
     },
     neighbour_one,
-    [](Ints const &c) { return "moore/neumann_neighbors type " + std::to_string(clampi(geti(c, 0), 0, 2)) + " at (" + std::to_string(geti(c, 1)) + "," + std::to_string(geti(c, 2)) + ")"; }};
+    [](Ints const &c) { return "moore/neumann_neighbors type " + std::to_string(clampi(geti(c, 0), 0, 4)) + " (0 int, 1 ptrdiff_t, 2 size_t, 3 int64 at 2^33/-2^40 + offset, 4 uint64 at 2^40/2^33 + offset) at (" + std::to_string(geti(c, 1)) + "," + std::to_string(geti(c, 2)) + ")"; }};
 
 // =================================================================== iterator::range, adapt_range, range::size
 template <typename Range>
